@@ -324,5 +324,52 @@ func main() {
 				run(fmt.Sprint("s", i), "splice", b, false)
 			}
 		}
+		// one IE of a valid message repeated many times, marked "ignore", each value announcing a huge list and carrying nothing: the cost
+		// of a message must stay bounded by its size, whatever the decoder does with an IE it cannot decode (for every IE id of every
+		// message type; 400 and 2000 repetitions)
+		nrep := 0
+		for mi, b := range valid {
+			if len(b) < 8 || mi >= 90 {
+				continue
+			}
+			p := 3
+			if b[p]&0x80 != 0 {
+				p++
+			}
+			p++
+			v := b[p:]
+			if len(v) < 3 {
+				continue
+			}
+			q, seen := 3, map[int]bool{}
+			for q+4 <= len(v) && len(seen) < 8 {
+				id := int(v[q])<<8 | int(v[q+1])
+				l, hl := int(v[q+3]), 4
+				if l&0x80 != 0 && q+5 <= len(v) {
+					l, hl = (l&0x3f)<<8|int(v[q+4]), 5
+				}
+				if !seen[id] {
+					seen[id] = true
+					for vi, payload := range [][]byte{{0x80, 0xff, 0xfe}, {0xff, 0xfe}, {0x00, 0xff, 0xfe, 0x00}, {0x40, 0xff, 0xff}} {
+						if (mi+vi)%2 == 1 {
+							continue // two of the four shapes per message
+						}
+						n := []int{400, 2000}[(mi+id)%2]
+						val := []byte{v[0], byte(n >> 8), byte(n)}
+						for k := 0; k < n; k++ {
+							val = append(val, byte(id>>8), byte(id), 0x40, byte(len(payload)))
+							val = append(val, payload...)
+						}
+						if len(val) >= 16384 {
+							continue
+						}
+						in := append([]byte{b[0], b[1], b[2], byte(0x80 | len(val)>>8), byte(len(val))}, val...)
+						run(fmt.Sprintf("q%d-%d-%d", mi, id, vi), "repeat", in, false)
+						nrep++
+					}
+				}
+				q += hl + l
+			}
+		}
 	}
 }
